@@ -1463,7 +1463,7 @@ func (g *n22) ifStmt(x *ast.IfStmt, rest []ast.Stmt, env *n22env, ind int, k n22
 					e.vars[env.strukt+"."+f] = &n22var{lean: gname, typ: r1[i], state: "ok", group: env.strukt + "#" + first, role: role}
 				}
 				e.vars[env.strukt+"#"+first] = &n22var{lean: gname, typ: "pair", state: "ok"}
-				g.line(ind, "let "+gname+" ← if "+c+" then "+wrap(t1, p1)+" else "+t2)
+				g.line(ind, "let "+gname+" ← (if "+c+" then "+wrap(t1, p1)+" else "+t2+")")
 				next(e, ind)
 				return
 			}
